@@ -31,6 +31,14 @@
 (* StopPolicy = "drain"   : on stop the worker appends what is still       *)
 (*                          queued, flushes, exits (repaired).             *)
 (* StopPolicy = "abandon" : flushes the buffer and exits (as found).       *)
+(*                                                                         *)
+(* What the property demands about WHEN a batch is flushed is one-sided:   *)
+(* a buffer that has reached the size or the waiting time in force must be *)
+(* flushed by the very append that made it so (MustFlush); flushing        *)
+(* earlier is never forbidden (the worker's timed wait may expire at any   *)
+(* moment; a waiting time <= 0 has no meaning as a threshold and is not    *)
+(* demanded).  Every flushing step therefore takes a decision `fl` that    *)
+(* must be TRUE when MustFlush holds and is free otherwise.                *)
 (***************************************************************************)
 EXTENDS Integers, Sequences, FiniteSets
 
@@ -89,7 +97,7 @@ Encoding(rs) == IF rs = <<>> THEN <<>> ELSE RecSeg(rs[1]) \o Encoding(Tail(rs))
 
 -----------------------------------------------------------------------------
 (* packs *)
-\* the repaired hand-over: the pack owns a copy of the buffer's bytes
+\* the repaired hand-over: the pack owns its payload
 PackCopy(path, rs, n, rid, m, k) ==
   [path |-> path, recs |-> rs, n |-> n, ulen |-> SumSize(rs),
    zipped |-> SumSize(rs) >= settings.zipMin, zmin |-> settings.zipMin,
@@ -123,6 +131,8 @@ New(m, given, s) ==
   /\ UNCHANGED <<queue, accB, refused, mem, live, count, firstTime, acall,
                  dactive, dq, dlive, dcount, drid, accD, emitted, stopped, blocked>>
 
+\* a configuration update: c = the resolved settings (a key the configuration does not
+\* mention resolves to its built-in default)
 ApplyConfig(c) ==
   /\ mode # "none"
   /\ settings' = c /\ configured' = TRUE
@@ -131,6 +141,7 @@ ApplyConfig(c) ==
 
 QueueHasRoom == settings.qCap <= 0 \/ Len(queue) < settings.qCap
 
+\* the critical section of the queue's Put
 Add(r) ==
   /\ mode = "queue" /\ stopped = "no"
   /\ IF QueueHasRoom
@@ -139,16 +150,24 @@ Add(r) ==
   /\ UNCHANGED <<mode, settings, configured, mem, live, count, firstTime, acall,
                  dactive, dq, dlive, dcount, drid, accD, emitted, stopped, blocked>>
 
-\* the buffer after r has been written is due for flushing
-Due(rs, ft, r) == SumSize(rs) >= settings.maxBuf \/ r.time - ft >= settings.maxWait
+\* the buffer holding rs (first record at time ft) has, with the append of r, reached a limit in force
+SizeDue(rs)      == SumSize(rs) >= settings.maxBuf
+TimeDue(ft, r)   == settings.maxWait > 0 /\ r.time - ft >= settings.maxWait
+MustFlush(rs, ft, r) == SizeDue(rs) \/ TimeDue(ft, r)
 
-\* Append: encode r into the reusable region, count it, flush iff due.  k = the client keeps the pack.
-DoAppend(r, k) ==
+\* would the append of r to the reusable buffer / of the next argument to the direct buffer reach a limit?
+AppendDue(r) == MustFlush(Append(live, r), IF firstTime = 0 THEN r.time ELSE firstTime, r)
+DirectDue    == SizeDue(Append(dlive, Head(dq)))
+
+\* Append: encode r into the reusable region, count it, flush if due (fl: see the header).
+\* k = the client keeps the pack.
+DoAppend(r, k, fl) ==
   LET m1 == WriteAt(mem[1], SumSize(live), r)
       l1 == Append(live, r)
       ft == IF firstTime = 0 THEN r.time ELSE firstTime
-  IN /\ mem' = [mem EXCEPT ![1] = m1]
-     /\ IF Due(l1, ft, r)
+  IN /\ MustFlush(l1, ft, r) => fl
+     /\ mem' = [mem EXCEPT ![1] = m1]
+     /\ IF fl
           THEN /\ emitted' = Append(emitted, Pack("b", l1, count + 1, 1, m1, k))
                /\ live' = <<>> /\ count' = 0 /\ firstTime' = 0
           ELSE /\ live' = l1 /\ count' = count + 1 /\ firstTime' = ft
@@ -163,11 +182,11 @@ FlushBuf(k) ==
 WorkerFree == mode = "queue" /\ ~blocked /\ stopped # "done"
 
 \* worker: dequeue one record and append it.  g = the client blocks the worker in this hand-over
-Take(k, g) ==
+Take(k, g, fl) ==
   /\ WorkerFree /\ queue # <<>>
   /\ queue' = Tail(queue)
-  /\ DoAppend(Head(queue), k)
-  /\ blocked' = (g /\ Len(emitted') > Len(emitted))
+  /\ DoAppend(Head(queue), k, fl)
+  /\ blocked' = (g /\ fl)
   /\ UNCHANGED <<mode, settings, configured, accB, refused, acall, dactive, dq, dlive, dcount, drid, accD, stopped>>
 
 \* worker: the timed wait on the queue expired (decided at some earlier poll: no guard on queue)
@@ -206,9 +225,9 @@ AppendBegin(r) ==
   /\ UNCHANGED <<mode, settings, configured, queue, refused, mem, live, count, firstTime,
                  dactive, dq, dlive, dcount, drid, accD, emitted, stopped, blocked>>
 
-AppendExec(k) ==
+AppendExec(k, fl) ==
   /\ acall # <<>>
-  /\ DoAppend(acall[1], k)
+  /\ DoAppend(acall[1], k, fl)
   /\ acall' = <<>>
   /\ UNCHANGED <<mode, settings, configured, queue, accB, refused,
                  dactive, dq, dlive, dcount, drid, accD, stopped, blocked>>
@@ -222,14 +241,15 @@ DirectBegin(rs) ==
   /\ UNCHANGED <<mode, settings, configured, queue, accB, refused, live, count, firstTime, acall,
                  emitted, stopped, blocked>>
 
-DStep(k) ==
+DStep(k, fl) ==
   /\ dactive /\ dq # <<>>
   /\ LET r  == Head(dq)
          m1 == WriteAt(mem[drid], SumSize(dlive), r)
          l1 == Append(dlive, r)
-     IN /\ mem' = [mem EXCEPT ![drid] = m1]
+     IN /\ SizeDue(l1) => fl
+        /\ mem' = [mem EXCEPT ![drid] = m1]
         /\ dq' = Tail(dq)
-        /\ IF SumSize(l1) >= settings.maxBuf
+        /\ IF fl
              THEN /\ emitted' = Append(emitted, Pack("d", l1, dcount + 1, drid, m1, k))
                   /\ dlive' = <<>> /\ dcount' = 0
              ELSE /\ dlive' = l1 /\ dcount' = dcount + 1 /\ UNCHANGED emitted
@@ -282,12 +302,11 @@ DefaultsInForce == ~configured => settings = Defaults
 HandedOverIsImmutable ==
   \A i \in 1..Len(emitted) : emitted[i].kept => Content(emitted[i]) = emitted[i].snap
 
-\* FlushWhenDue, as a property of steps: whenever a buffer has grown it is not due afterwards
-\* (a due buffer is flushed in the very step that made it due) ...
+\* FlushWhenDue, as a property of steps: a buffer that grew in a step has not reached a limit in
+\* force (a buffer that reaches one is flushed in the very step that made it so) ...
 FlushWhenDueStep ==
-  /\ count' > count  => /\ SumSize(live') < settings.maxBuf
-                        /\ live'[Len(live')].time - firstTime' < settings.maxWait
-  /\ dcount' > dcount => SumSize(dlive') < settings.maxBuf
+  /\ count' > count   => ~MustFlush(live', firstTime', live'[Len(live')])
+  /\ dcount' > dcount => ~SizeDue(dlive')
 \* ... and nothing stays behind a stop or the end of a direct call (part of ExactlyOnceInOrder)
 
 Inv == ExactlyOnceInOrder /\ CountMatches /\ Decodable /\ ZipIff /\ DefaultsInForce /\ HandedOverIsImmutable
